@@ -313,3 +313,34 @@ prop("C19",
      trusted_base=["index-lambda semantics (pyvc/den.py)"],
      assumptions=["exact arithmetic; casts value-preserving"],
      unverified_surroundings=[])
+
+prop("C06",
+     level="proof",
+     level_text=(
+         "Deductive proof over an abstract value semantics (einsum with one "
+         "open operand slot is a linear map; nothing else is assumed "
+         "algebraic): every map_* of the distributive-law mapper satisfies "
+         "[[result]] = L_ctx([[x]]) given the same for its recursive calls, "
+         "for every binary operation x operand kind x position and every "
+         "answer of the distribution policy; the no-broadcast rewrite is "
+         "proved value-preserving through the verified lowering for all axis "
+         "lengths and indices."),
+     level_note=(
+         "Exact (ring) arithmetic: floating-point reassociation is out of "
+         "scope. Linearity of einsum in one operand is an axiom (its "
+         "definition). The whole-expression statement follows by structural "
+         "induction (DESIGN Appendix A.6, paper). The raiser used at the call "
+         "site is the C19 contract."),
+     technique="contract-based deductive verification: symbolic execution of "
+               "the real rewriter + VCs over uninterpreted linear maps (z3 "
+               "with quantified linearity axioms) / denotational equality",
+     design_ref="DESIGN.md §6 C06",
+     explanation="see contracts/c06_einsum.py",
+     structural_bound="19 operand forms x {inside/outside a distribution "
+                      "context}; einsums with 1..3 operands, every policy "
+                      "answer; no-broadcast: einsum specs over <=2 letters "
+                      "with every single unit axis and all-unit",
+     trusted_base=["einsum is multilinear (axiom)", "node value is a "
+                   "congruence of kind/parameters/children values"],
+     assumptions=["exact arithmetic"],
+     unverified_surroundings=[])
